@@ -278,6 +278,8 @@ void OPNMIDIplay::realTime_ResetState()
             chan.is_xg_percussion = false;
         noteUpdateAll(uint16_t(ch), Upd_All);
         noteUpdateAll(uint16_t(ch), Upd_Off);
+        // The pedals were reset too: release everything they were holding
+        killSustainingNotes(static_cast<int32_t>(ch), -1, OpnChannel::LocationData::Sustain_ANY);
     }
     synth.m_masterVolume = MasterVolumeDefault;
 }
